@@ -81,7 +81,48 @@ def check_case(case, excludes):
         labels += ('leading-blank-lines',)
     if errs:
         return Out(Fail('line-number', 'wrong line', markdown=text, errors=errs[:6]), nt=nt, labels=labels)
+    # the block tokens that exist only while the Markdown renderer is active: blank lines and definition blocks
+    try:
+        errs = markdown_mode_errors(text)
+    except Exception as exc:
+        return Out(skip='markdown-mode parse raised ' + exc_sig(exc), nt=nt, labels=labels)
+    if errs:
+        return Out(Fail('line-number', 'blank line / definition token', markdown=text, errors=errs[:6]), nt=nt, labels=labels)
     return Out(nt=nt, labels=labels)
+
+
+def markdown_mode_errors(text):
+    """Under the Markdown renderer's token set every blank line and every group of definitions is a block token too.  Their
+    line must be a line of that kind (blank once quote markers and indentation are taken away; beginning with '['), and
+    the children of one parent report increasing lines."""
+    import re
+    from mistletoe import Document
+    with renderers.make('Markdown') as r:
+        parsed = Document(text)
+    lines = text.split('\n')
+    errs = []
+    stack = [parsed]
+    while stack:
+        tok = stack.pop()
+        kids = [k for k in (tok.children or []) if hasattr(k, 'line_number')]
+        prev = 0
+        for k in kids:
+            name = type(k).__name__
+            ln = k.line_number
+            if not isinstance(ln, int) or not 1 <= ln <= len(lines):
+                errs.append('%s reports line %r of %d' % (name, ln, len(lines)))
+                continue
+            src = lines[ln - 1]
+            if name == 'BlankLine' and not re.fullmatch(r'(?:[ \t>]|(?:[-+*]|\d{1,9}[.)])(?=[ \t]|$))*', src):
+                errs.append('BlankLine reports line %d, which reads %r' % (ln, src))
+            if name == 'LinkReferenceDefinitionBlock' and not re.match(r'(?:[ \t>]|(?:[-+*]|\d{1,9}[.)])(?=[ \t]))*\[', src):
+                errs.append('LinkReferenceDefinitionBlock reports line %d, which reads %r' % (ln, src))
+            if name in ('BlankLine', 'LinkReferenceDefinitionBlock') or prev:
+                if ln < prev or (ln == prev and name == 'BlankLine'):
+                    errs.append('%s under %s reports line %d after a sibling on line %d' % (name, type(tok).__name__, ln, prev))
+            prev = max(prev, ln)
+            stack.append(k)
+    return errs
 
 
 class Documents(HypPart):
